@@ -158,7 +158,7 @@ func normalIndex(g *rand.Rand) uint32 {
 }
 
 func legAlias() {
-	n := r.Pick(480, 24000)
+	n := r.Pick(480, 12000)
 	vf.Parallel(n, runtime.NumCPU(), func(i int) { aliasCase(i) })
 }
 
@@ -611,36 +611,36 @@ func watchedBytes(in *inputs) int {
 
 // aliasFloors: coverage floors of the immutability and concurrent legs
 func aliasFloors(fl func(k string, quick, thorough int64)) {
-	fl("alias.cases.agree", 450, 23000)
+	fl("alias.cases.agree", 450, 11500)
 	for _, o := range aliasOrigins {
-		fl("alias.cases.agree:"+o, 70, 3800)
+		fl("alias.cases.agree:"+o, 70, 1900)
 	}
-	fl("alias.input-checks", 15000, 750000)
-	fl("alias.ops.agree", 10000, 500000)
+	fl("alias.input-checks", 15000, 375000)
+	fl("alias.ops.agree", 10000, 250000)
 	for _, op := range []string{"PrivateKey.Serialize", "PrivateKey.String", "PrivateKey.Fingerprint", "PrivateKey.Identifier", "PrivateKey.PublicKey",
 		"PrivateKey.NewPrivateChildKey(normal)", "PrivateKey.NewPrivateChildKey(hardened)", "PrivateKey.NewPublicChildKey", "PrivateKey.DeriveSubpath", "PrivateKey.Clone",
 		"PublicKey.Serialize", "PublicKey.String", "PublicKey.Fingerprint", "PublicKey.Identifier", "PublicKey.NewPublicChildKey",
 		"PublicKey.NewPublicChildKey(second index)", "PublicKey.NewPublicChildKey(hardened)", "PublicKey.Clone"} {
-		fl("alias.ops.agree:"+op, 450, 23000)
+		fl("alias.ops.agree:"+op, 450, 11500)
 	}
-	fl("alias.ops.repeated.agree", 2500, 130000)
-	fl("alias.redeserialize.agree", 7000, 350000)
-	fl("alias.seed-entry-points.agree", 450, 23000)
-	fl("alias.mnemonic.agree", 450, 23000)
-	fl("alias.bip44.agree", 150, 7500)
-	fl("conc.groups.agree", 230, 7900)
+	fl("alias.ops.repeated.agree", 2500, 65000)
+	fl("alias.redeserialize.agree", 7000, 175000)
+	fl("alias.seed-entry-points.agree", 450, 11500)
+	fl("alias.mnemonic.agree", 450, 11500)
+	fl("alias.bip44.agree", 150, 3750)
+	fl("conc.groups.agree", 230, 3950)
 	for _, o := range concOrigins {
-		fl("conc.groups.agree:"+o, 35, 1250)
+		fl("conc.groups.agree:"+o, 35, 625)
 	}
-	fl("conc.goroutines", 4500, 160000)
+	fl("conc.goroutines", 4500, 80000)
 	for _, op := range []string{"priv.child", "priv.pubchild", "pub.child", "ser", "ident", "mnemonic", "entropy", "seed", "master"} {
-		fl("conc.calls.in-process:"+op, 1000, 40000)
+		fl("conc.calls.in-process:"+op, 1000, 20000)
 	}
 	r.Floor("race.children", 4)
-	fl("race.groups", 44, 1150)
-	fl("race.calls:pub.child", 1300, 34000)
-	fl("race.calls:priv.child", 1000, 27000)
-	fl("race.calls:mnemonic", 800, 20000)
-	fl("race.calls:master", 500, 13000)
-	fl("race.calls:seed", 80, 2000)
+	fl("race.groups", 44, 575)
+	fl("race.calls:pub.child", 1300, 17000)
+	fl("race.calls:priv.child", 1000, 13500)
+	fl("race.calls:mnemonic", 800, 10000)
+	fl("race.calls:master", 500, 6500)
+	fl("race.calls:seed", 80, 1000)
 }
